@@ -104,6 +104,49 @@ def c07(run, tier):
     values_traces(run, tier)
 
 
+def c10(run, tier):
+    import os
+    # spec -> code: every conforming event stream within the bound, fed to the real store; the snapshots
+    # are judged by Trace_Store (the machine's own invariants are checked in the same TLC run)
+    cfg = run.cfg("MC_Store.cfg", {"MaxEvents": Q(tier, 6, 7)}, "gen.cfg")
+    trace = os.path.join(run.work, "store.ndjson")
+    rep = run.tlc_gen_replay("MC_Store", cfg, "events", harness_args=["-out", trace], timeout=Q(tier, 400, 3000))
+    run.judge_trace(trace, "Trace_Store", "tlc-streams", "C10.store", timeout=Q(tier, 600, 3000))
+    # code -> spec: seeded random larger streams (redundant redeclarations, surplus End, late nodes)
+    t2 = os.path.join(run.work, "store-random.ndjson")
+    p = run.harness_cmd(["store-record", "-n", str(Q(tier, 400, 4000)), "-out", t2], "store-record")
+    if p.returncode != 0:
+        from check import Infra
+        raise Infra("store-record failed: " + p.stderr[-1000:])
+    run.judge_trace(t2, "Trace_Store", "random-streams", "C10.store", timeout=Q(tier, 600, 3000))
+    # stack space: long flat streams in a child process, call depth sampled inside Pull()
+    t3 = os.path.join(run.work, "flat.ndjson")
+    p = run.harness_cmd(["flat", "-n", str(Q(tier, 100000, 1000000)), "-out", t3], "flat", timeout=600)
+    if p.returncode != 0:
+        from check import Infra
+        raise Infra("flat driver failed: " + p.stderr[-1000:])
+    run.judge_trace(t3, "Trace_Store", "flat", "C10.flat", workers=1)
+
+
+def c10_replay(run, path):
+    import json, os
+    rc = json.load(open(path))
+    t = os.path.join(run.work, "replay.ndjson")
+    run.build_harness()
+    if rc["fam"] == "C10.flat":
+        p = run.harness_cmd(["flat", "-n", str(rc["line"]["n"]), "-out", t], "flat")
+    else:
+        ev = os.path.join(run.work, "evs.json")
+        json.dump(rc["line"]["evs"], open(ev, "w"))
+        p = run.harness_cmd(["store-one", "-out", t, ev], "store-one")
+    bad = run.judge_trace(t, "Trace_Store", "replay", rc["fam"], workers=1)
+    if bad:
+        print("VIOLATION property=C10 replay=%s" % path)
+        return 1
+    print("not reproduced:", path)
+    return 0
+
+
 def raise_spec(run, what, out):
     from check import Infra
     raise Infra("%s -- the specification itself is inconsistent (machinery problem, not a verdict):\n%s" % (what, run.tail(out)))
@@ -137,6 +180,13 @@ PROPS = {
             "all triples for translate, 4 mixed-width strings x 38 x 38 position/length numerals for substring; the harness instantiates the width classes with seeded runes and compares exact strings; "
             "the recommendation's printed examples are ASSUMEs of the model", "exhaustive": {"quick": True, "thorough": True},
             "assumptions": BASE_ASSUME + ["Unicode: an 8-symbol alphabet of width/class representatives (1-4 byte UTF-8, combining mark, XML and non-XML white space), re-instantiated by VERIF_SEED"]},
+    "C10": {"run": c10, "replay": c10_replay,
+            "rule": "TLC enumerates every Parser-contract-conforming event stream of at most MaxEvents (quick 6, thorough 7) events over 2 element names, 1 attribute, namespace "
+                    "declarations p->U1, p->U2 (override / redeclaration) and the default namespace, text, comment, PI, End and surplus End at the root; each is fed to store.CreateInMemory "
+                    "through a scripted parser.Parser and the complete cursor snapshot (object identity, Pos, Parent, three lists) is judged by Trace_Store: mirrors the Store machine's tree, "
+                    "RootZero, ListedOnce (own namespace nodes), ParentLinks, PosUnique, PosOrder; plus seeded random streams of up to 45 nodes and flat streams of 10^5 (thorough 10^6) events "
+                    "with call-stack depth sampled inside Pull(); every trace line is a distinct run", "exhaustive": {"quick": True, "thorough": True},
+            "assumptions": BASE_ASSUME + ["stack usage is observed as call depth (runtime.Callers) inside the scripted parser in a child process with a 48 MB stack cap; the relative order of an element's namespace nodes is not constrained"]},
     "C01": {
         "run": c01,
         "rule": "TLC enumerates every document the Store machine can build within the node bound (all kinds, names a/b x {no namespace,U1}), "
